@@ -175,8 +175,9 @@ def x_chain(tier='quick', decoy=False):
     if decoy == 'global':
         # global ELEMENTS named like the types they are of (the usual doc/literal shape): elements and types are separate symbol
         # spaces, base= denotes the type. One element is declared before every type, the other after.
-        comps = [GEl('Base', type='t:Base')] + comps + [GEl('Mid', type='t:Mid')]
-        order = Selector('order', [(0,) + tuple(i + 1 for i in p) + (5,) for p in order.options])
+        ref_user = CT('RefUser', Seq([El(ref='t:Base'), El('z', 'xs:string')]))
+        comps = [ref_user, GEl('Base', type='t:Base')] + comps + [GEl('Mid', type='t:Mid')]
+        order = Selector('order', [(0, 1) + tuple(i + 2 for i in p) + (6,) for p in order.options])
     elif decoy:
         dec = CT('Decoy', Seq([El('Base', 'xs:string'), El('Mid', 'xs:int')]), attrs=[Attr('Leaf', 'xs:string')])
         comps = [dec] + comps
@@ -298,7 +299,7 @@ def w_ops(tier='quick', headers=0, other_ns=False):
     partn = Selector('part_name', ['parameters', 'body'])
     has_out = Selector('has_output', [True, False])
     svc = Selector('service_name', ['OrdersService', 'Orders'])
-    locsel = Selector('address', ['http://example.com/orders', 'http://example.com/gateway/soap?service=hello&tenant=acme'])
+    locsel = Selector('address', ['http://example.com/orders', 'http://example.com/gateway/soap?service=hello&tenant=acme', 'http://example.com/services/orders/'])
     sels = [opn, eln, partn, has_out, svc, locsel]
     els = [GEl(eln, content=Seq([El('symbol', 'xs:string')])), body_el('GetQuoteResponse'), body_el('PingRequest'), body_el('PingResponse')]
     hdr_els = []
@@ -314,11 +315,12 @@ def w_ops(tier='quick', headers=0, other_ns=False):
     sels.append(parts_attr)
     bparts = Opt(partn.sym(), parts_attr.var != 0)
     in_parts = [(partn, req_ref)] + hparts
-    msgs = [Msg('GetQuoteIn', in_parts), Msg('GetQuoteOut', [('parameters', 'tns:GetQuoteResponse')]),
-            Msg('PingIn', [('parameters', 'tns:PingRequest')]), Msg('PingOut', [('parameters', 'tns:PingResponse')])]
+    # the second operation's message names are suffixes of the first one's and are declared first
+    msgs = [Msg('QuoteIn', [('parameters', 'tns:PingRequest')]), Msg('QuoteOut', [('parameters', 'tns:PingResponse')]),
+            Msg('GetQuoteIn', in_parts), Msg('GetQuoteOut', [('parameters', 'tns:GetQuoteResponse')])]
     op1 = Op(opn, 'tns:GetQuoteIn', 'tns:GetQuoteOut', body_parts=bparts, headers=[h[0] for h in hparts],
              action='http://example.com/orders/v1/GetQuote', has_output=(has_out.var == 0))
-    op2 = Op('Ping', 'tns:PingIn', 'tns:PingOut')
+    op2 = Op('Ping', 'tns:QuoteIn', 'tns:QuoteOut')
     sch = Schema(NSW, els, prefixes={})
     w = Wsdl(NSW, sch, msgs, [op1, op2], service=svc, location=locsel)
     sc = Scenario('W-ops-h%d' % headers, {'svc.wsdl': w.tree()}, 'svc.wsdl', sels)
@@ -363,7 +365,7 @@ def x_cross3(tier='quick'):
 def x_samename(tier='quick'):
     """local names shared across namespaces: a.xsd declares Address (extending the imported m:Address) and Item, and Special
     extending its OWN t:Item, which may be declared after it; b.xsd has an unrelated Item. Declaration order in a.xsd symbolic."""
-    b_addr = CT('Address', Seq([El('street', 'xs:string'), El('city', 'xs:string')]), attrs=[Attr('country', 'xs:string')])
+    b_addr = CT('Address', Seq([El('street', 'xs:string'), El('city', 'xs:string'), El('kind', 'm:Item')]), attrs=[Attr('country', 'xs:string')])
     b_item = CT('Item', Seq([El('code', 'xs:string')]), attrs=[Attr('flag', 'xs:boolean')])
     sch_b = Schema(NS2, [b_addr, b_item], prefixes={'m': NS2})
     a_addr = CT('Address', Seq([El('note', 'xs:string')]), base='m:Address', ext_attrs=[Attr('preferred', 'xs:boolean')])
